@@ -190,7 +190,27 @@ def run(ctx):
            f'try_start_task is called only from try_alloc_and_start_task and prefill_loop (observed {sorted(c.split("::")[-1] for c in callers)})', None)
     # retract_tasks: reads/removes prefilled_tasks and never touches running_tasks
     from hqrules.templates import field_read_sites
+    _r066_closure(ctx, prog, rt)
     touches_pref = any(b.path in prog.with_closures(rt.path) for o, b, bi, st in field_read_sites(prog, T + 'worker::state::WorkerState', 'prefilled_tasks'))
     touches_run = any(b.path in prog.with_closures(rt.path) for o, b, bi, st in field_read_sites(prog, T + 'worker::state::WorkerState', 'running_tasks'))
     ctx.ob('R06.6', 'retract_tasks|operates on backlog only', touches_pref and not touches_run,
            'retract_tasks removes from the backlog (prefilled_tasks) and never from running_tasks', rt.loc())
+
+
+def _r066_closure(ctx, prog, rt):
+    """retain closure of retract_tasks: push(id) and `false` (remove) on the contains()==true edge only."""
+    from hqrules.templates import guard_edges, dominated_by_edges
+    from hqrules.core import op_const
+    cl = [prog.bodies[p] for p in prog.with_closures(rt.path) if p != rt.path and prog.bodies[p].locals[0][0] == 'bool']
+    ctx.require(cl, 'R06.6: retain closure of retract_tasks')
+    b = cl[0]
+    SETC = {'hashbrown::set::HashSet::contains', 'std::collections::hash::set::HashSet::contains'}
+    e_t, calls = guard_edges(b, SETC, True)
+    push = b.call_blocks('alloc::vec::Vec::push')
+    ctx.require(e_t and push, 'R06.6: contains()/push in the retain closure')
+    ctx.ob('R06.6', 'retract_tasks|reported iff requested', all(dominated_by_edges(b, x, e_t, False) for x in push), 'an id is reported as given back only if it was requested', b.loc(push[0]))
+    rf = [x for x in b.reachable() for s in b.stmts(x) if s['k'] == 'a' and s['p'] == [0, []] and s['rv'][0] == 'use' and op_const(s['rv'][1]) in ('false', 'const false')]
+    rtrue = [x for x in b.reachable() for s in b.stmts(x) if s['k'] == 'a' and s['p'] == [0, []] and s['rv'][0] == 'use' and op_const(s['rv'][1]) in ('true', 'const true')]
+    ok = bool(rf) and all(dominated_by_edges(b, x, e_t, False) for x in rf) and all(not dominated_by_edges(b, x, e_t, False) for x in rtrue)
+    ctx.ob('R06.6', 'retract_tasks|removed iff reported', ok and all(any(y in b.reach_from([x]) or x in b.reach_from([y]) or x == y for y in rf) for x in push),
+           'the task is removed from the backlog (retain -> false) exactly on the branch that reports it; every other task is kept', b.loc(rf[0]) if rf else b.loc())
